@@ -36,7 +36,7 @@ def draw_knobs(tape, max_time):
       hot_span=tape.pick([0, 0, 6, 30], 'hot'),
       max_steps=3000000,
       max_time=max_time,
-      async_delay_max=tape.pick([0, 0, 3, 12], 'adelay'))
+      async_delay_max=0)
 
 
 def _count_faults(spec, faults):
@@ -106,7 +106,7 @@ def run_spec(tape, spec, extra_threads=None, executes=1, style=0):
     gap2 = tape.pick([0, 0.01, 0.3, 1.0, 2.5], 'abort_gap')
   sim = core.Sim(tape, env.TRACE_PREFIXES, knobs)
   sim.sigint_info = lambda: len(test_descriptor.Test.TEST_INSTANCES)
-  sim.watch_calls = frozenset(['_execute_test_teardown', '_finalize', 'tear_down_plugs', 'finalize', 'abort', 'wait'])
+  sim.watch_calls = frozenset(['_execute_test_teardown', '_finalize', 'tear_down_plugs', 'finalize', 'abort', 'wait', 'close'])
   obs.sim = sim
   ctx = bodies.Ctx(sim, spec.get('tag', ''))
   bodies.CURRENT[ctx.tag] = ctx
@@ -116,6 +116,13 @@ def run_spec(tape, spec, extra_threads=None, executes=1, style=0):
     CONF.load(_override=True, **conf)
   gate = core.Gate()
   wout = {}
+  slow = None
+  if spec.get('slow_log_s'):
+    slow = bodies.SlowHandler(spec['slow_log_s'])
+    logging.getLogger(logs.LOGGER_PREFIX).addHandler(slow)
+    model.ambiguous = True   # scripted durations no longer decide timeouts exactly
+    knobs.max_time += 400.0
+    obs.faults['slow_log_handler'] = 1
   try:
     with env.NoGC(10):
       sim.begin()
@@ -179,6 +186,10 @@ def run_spec(tape, spec, extra_threads=None, executes=1, style=0):
           obs.extra['exc_msg'] = str(e)[:200]
           sim.event('exec_exc', type(e).__name__)
         wout['execute_done'] = True
+        og = getattr(ctx, 'overlap_gate', None)
+        if og is not None and not og.opened:
+          ctx.overlap_cancel = True
+          og.open(prefer=False)
         # the run is over: disarm pending aborts so that they cannot land in harness code
         sim.triggers.clear()
         sim.next_trigger = None
@@ -200,6 +211,35 @@ def run_spec(tape, spec, extra_threads=None, executes=1, style=0):
         for item in threads:
           if isinstance(item, tuple):
             item[1].join()
+        # further consecutive executions of the same Test object (same scripted behaviours)
+        obs.extra['runs'] = [{'ret': obs.ret, 'exc': obs.exc, 'sink_to': len(obs.sink),
+                              'log_to': len(sim.log), 'post': dict(obs.post)}]
+        for j in range(1, executes):
+          if obs.exc is not None or not obs.post.get('executor_none'):
+            break
+          ctx.inv.clear()
+          ctx.runif.clear()
+          ctx.diag_calls.clear()
+          sim.event('exec_call', j)
+          r = {'ret': None, 'exc': None}
+          try:
+            r['ret'] = test.execute(test_start=start)
+            sim.event('exec_ret', r['ret'])
+          except core.SimAbort:
+            raise
+          except BaseException as e:  # pylint: disable=broad-except
+            r['exc'] = type(e).__name__
+            r['exc_msg'] = str(e)[:200]
+            sim.event('exec_exc', type(e).__name__)
+          r['sink_to'] = len(obs.sink)
+          r['log_to'] = len(sim.log)
+          r['post'] = {
+              'executor_none': test._executor is None,  # pylint: disable=protected-access
+              'instances': len(test_descriptor.Test.TEST_INSTANCES),
+              'record_handlers': sum(1 for h in logging.getLogger(logs.LOGGER_PREFIX).handlers
+                                     if isinstance(h, logs.RecordHandler)),
+          }
+          obs.extra['runs'].append(r)
         sim.event('main_done')
       except core.SimAbort as e:
         obs.failed = sim.failed or 'abort'
@@ -210,6 +250,8 @@ def run_spec(tape, spec, extra_threads=None, executes=1, style=0):
         obs.failed_info = obs.failed_info or sim.failed_info
         sim.end()
   finally:
+    if slow is not None:
+      logging.getLogger(logs.LOGGER_PREFIX).removeHandler(slow)
     if conf:
       CONF.reset()
     bodies.CURRENT.pop(ctx.tag, None)
